@@ -156,8 +156,8 @@ PROPS['C01'] = {
 }
 PROPS['C20'] = {
     'kani': {
-        'quick': [krun(['gen_c20::q::', 'gen_c20::syntax::'], timeout=900, bounds='list form arity in {0..=8,12,16,31,32,33,64} with side-effecting element expressions (evaluation log) and a symbolic salt; tracked non-Copy elements up to arity 40; repeat forms N in {0,1,3,8}; const items; trailing commas; empty list; box_arr! all three forms')],
-        'thorough': [krun(['gen_c20::'], timeout=2400, bounds='every arity 0..=64 and 100, 128, 255, 256; repeat forms N in {0,1,2,3,5,8,16,33,64}')],
+        'quick': [krun(['gen_c20::q::', 'gen_c20::syntax::'], flags=['--features', 'c20'], timeout=900, bounds='list form arity in {0..=8,12,16,31,32,33,64} with side-effecting element expressions (evaluation log) and a symbolic salt; tracked non-Copy elements up to arity 40; repeat forms N in {0,1,3,8}; const items; trailing commas; empty list; box_arr! all three forms')],
+        'thorough': [krun(['gen_c20::'], flags=['--features', 'c20'], timeout=2400, bounds='every arity 0..=64 and 100, 128, 255, 256; repeat forms N in {0,1,2,3,5,8,16,33,64}')],
     },
     'functions': ['arr!', 'box_arr!', 'GenericArray::__from_vec_helper', 'GenericArray::from_array', 'const_transmute', 'GenericArray::try_from_vec'],
     'bounds': 'K: generated invocations by arity; values (salt) and witness index symbolic. The arity -> length mapping is the compiler\'s: every binding is annotated with the expected typenum length, so a wrong mapping is a build error (exit 2 with the diagnostic).',
